@@ -607,9 +607,13 @@ func RunC17(t *testing.T, spec kernel.Spec) *kernel.Outcome {
 			obk = bk // the encryption key is shared (or absent on both sides)
 		}
 		o.Probe("cookie-keys-of-the-other-application:" + relation)
+		userinfoCB := kc.Bool(1, 3)
+		if userinfoCB {
+			o.Probe("worlds-with-the-userinfo-callback")
+		}
 		mk := func(h, b []byte) (*world.RPNode, error) {
 			return world.BuildRP(context.Background(), w, world.RPOptions{Client: c.client, Secret: secret, Host: c.host(), Redirect: "https://" + c.host() + "/callback", Signer: signer,
-				Scopes: []string{oidc.ScopeOpenID, oidc.ScopeEmail}, PKCE: pkce, Cookies: true, HashKey: h, BlockKey: b, NoBlockKey: blockLen == 0, AuthStyle: style, SigAlgs: []string{string(w.SigAlg)}, MaxAge: c.maxAge})
+				Scopes: []string{oidc.ScopeOpenID, oidc.ScopeEmail}, PKCE: pkce, Cookies: true, HashKey: h, BlockKey: b, NoBlockKey: blockLen == 0, UserinfoCB: userinfoCB, AuthStyle: style, SigAlgs: []string{string(w.SigAlg)}, MaxAge: c.maxAge})
 		}
 		c.other, err = mk(ohk, obk)
 		if err == nil {
